@@ -25,6 +25,40 @@ class TypeMarker:
     def __repr__(self):
         return "<type %s>" % self.name
 
+    def __eq__(self, other):
+        if isinstance(other, TypeMarker):
+            return self.name == other.name
+        if other is float:
+            return self.name == "float64"
+        return NotImplemented
+
+    def __ne__(self, other):
+        r = self.__eq__(other)
+        return r if r is NotImplemented else not r
+
+    def __hash__(self):
+        return hash(("TypeMarker", self.name))
+
+    _DT = {"float64": ("f", "<f8", 8), "int64": ("i", "<i8", 8), "int32": ("i", "<i4", 4), "bool": ("b", "|b1", 1)}
+
+    @property
+    def kind(self):
+        if self.name in self._DT:
+            return self._DT[self.name][0]
+        raise ModelError("dtype.kind of %s" % self.name)
+
+    @property
+    def str(self):
+        if self.name in self._DT:
+            return self._DT[self.name][1]
+        raise ModelError("dtype.str of %s" % self.name)
+
+    @property
+    def itemsize(self):
+        if self.name in self._DT:
+            return self._DT[self.name][2]
+        raise ModelError("dtype.itemsize of %s" % self.name)
+
     def __call__(self, *a, **k):
         if self.name in ("float", "float64"):
             return to_scalar(a[0])
@@ -260,6 +294,7 @@ class NP:
         self.float64 = TypeMarker("float64")
         self.int32 = TypeMarker("int32")
         self.int64 = TypeMarker("int64")
+        self.integer = TypeMarker("integer")       # np.integer: NumPy integer scalars (Python ints are not instances)
         self.Array = TypeMarker("daarray")      # dask.array.Array
         self.AxisError = TypeMarker("AxisError")
         self.core = _NS(Array=self.Array)       # dask.array.core.Array
